@@ -9,7 +9,6 @@ import (
 	"go/types"
 	"math/big"
 	"os"
-	"sort"
 	"strings"
 
 	"golang.org/x/tools/go/ssa"
@@ -55,6 +54,7 @@ func newVerifier(p *Program, lib *SpecLib) *Verifier {
 	v := &Verifier{prog: p, lib: lib, finfo: map[*ssa.Function]*FuncInfo{}, globals: map[*ssa.Global]int64{}, strConsts: map[string]int64{},
 		nextNeg: -1, typeTags: map[string]int64{}, tagTypes: map[int64]types.Type{}, assumptions: map[string]bool{}, inlineDepthMax: 6, sliceGlobalArr: map[*ssa.Global]int64{}}
 	theV = v
+	v.scanFieldAddrs()
 	v.scanGlobals()
 	return v
 }
@@ -266,8 +266,8 @@ func (v *Verifier) initGlobalAxioms(g *ssa.Global, id int64) {
 				aref := IntLit(arr)
 				v.constGlobals[g] = true
 				v.axioms = append(v.axioms,
-					Eq(st0.loadCell("int", ref, IntLit(0)), aref), Eq(st0.loadCell("int", ref, IntLit(1)), IntLit(0)),
-					Eq(st0.loadCell("int", ref, IntLit(2)), IntLit(n)), Eq(st0.loadCell("int", ref, IntLit(3)), IntLit(n)))
+					Eq(st0.loadCell(cellKinds(elemT)[0], ref, IntLit(0)), aref), Eq(st0.loadCell(cellKinds(elemT)[1], ref, IntLit(1)), IntLit(0)),
+					Eq(st0.loadCell(cellKinds(elemT)[2], ref, IntLit(2)), IntLit(n)), Eq(st0.loadCell(cellKinds(elemT)[3], ref, IntLit(3)), IntLit(n)))
 				ks := cellKinds(sl.Elem())
 				for i, c := range cells {
 					v.axioms = append(v.axioms, Eq(st0.loadCell(ks[i%len(ks)], aref, IntLit(int64(i))), c))
@@ -299,8 +299,8 @@ func (v *Verifier) initGlobalAxioms(g *ssa.Global, id int64) {
 	}
 	// interface-typed globals named Err*: non-nil, distinct payload per global
 	if _, isIface := elemT.Underlying().(*types.Interface); isIface && strings.HasPrefix(g.Name(), "Err") {
-		tag := st0.loadCell("int", ref, IntLit(0))
-		pay := st0.loadCell("int", ref, IntLit(1))
+		tag := st0.loadCell(cellKinds(elemT)[0], ref, IntLit(0))
+		pay := st0.loadCell(cellKinds(elemT)[1], ref, IntLit(1))
 		v.axioms = append(v.axioms, Gt(tag, IntLit(0)), Eq(pay, IntLit(id-1000000)))
 	}
 }
@@ -359,6 +359,7 @@ type Unit struct {
 	assumed  map[string]bool
 	deps     map[string]bool
 	fixLen    map[int]int64
+	names     map[string]int
 	unrollAll int // >0: bounded mode — every loop is unrolled this many times and longer runs are cut off
 }
 
@@ -401,6 +402,13 @@ type Frame struct {
 	headEnv map[*Loop]map[ssa.Value]*Val
 	parent    *Frame
 	inlineSet map[string]bool
+	loopMods  []loopMod
+}
+
+type loopMod struct {
+	refs      []*Term
+	nextEntry *Term
+	ord       int
 }
 
 func (u *Unit) note(s string) { u.notes[s] = true }
@@ -477,6 +485,13 @@ func (fr *Frame) oblig(in ssa.Instruction, kind string, goal *Term, desc string)
 }
 
 func (u *Unit) addObl(name, kind string, guard, goal *Term, pos, desc string) {
+	if u.names == nil {
+		u.names = map[string]int{}
+	}
+	u.names[name]++
+	if n := u.names[name]; n > 1 {
+		name = fmt.Sprintf("%s@%d", name, n)
+	}
 	g := Implies(guard, goal)
 	o := &Obligation{Name: name, Kind: kind, Fn: u.name, Hyps: append([]*Term{}, u.facts...), Goal: g, Pos: pos, Desc: desc, Inputs: u.inputs, Unit: u, Opaque: u.opaque, Fuel: u.fuel}
 	if g == True {
@@ -551,6 +566,10 @@ func (v *Verifier) verifyFunctionFixed(fn *ssa.Function, unrollAll int, fixLen m
 		u.facts = append(u.facts, validFacts(pv, u.next0, nil)...)
 		registerBelow(pv, u.next0)
 	}
+	// pointer receivers: methods are specified for non-nil receivers; every call site proves it
+	if rc := fn.Signature.Recv(); rc != nil && len(fr.params) > 0 && fr.params[0].K == VPtr {
+		u.facts = append(u.facts, Not(Eq(fr.params[0].Ref, IntLit(0))))
+	}
 	u.inputs = fr.params
 	u.top = fr
 	fr.entry = st.clone()
@@ -589,7 +608,7 @@ func unsup(f string, a ...interface{}) { panic(unsupported(fmt.Sprintf(f, a...))
 
 // contractEnv builds the evaluation environment for a contract of fr.fn.
 func (fr *Frame) contractEnv(params []*Val, results []*Val, st, old *State) *Env {
-	env := &Env{vars: map[string]*CV{}, st: st, old: old, lib: fr.u.v.lib, prog: fr.u.v.prog}
+	env := &Env{vars: map[string]*CV{}, st: st, old: old, lib: fr.u.v.lib, prog: fr.u.v.prog, unit: fr.u}
 	if old != nil {
 		env.oldNext = old.Next
 	}
@@ -955,6 +974,27 @@ func (fr *Frame) execCutLoop(l *Loop, ls *LoopSpec, entry []*Edge) {
 	}
 	nextEntry := st.Next
 	w := fr.loopWrites(l, env)
+	if len(ls.Modifies) > 0 {
+		// declared write set of the loop: checked store by store while the body runs
+		cenv := fr.loopEnv(l, phis, map[*ssa.Phi]*Val{}, st, env)
+		var refs []*Term
+		okAll := true
+		for _, m := range ls.Modifies {
+			r, err := modTargetRef(cenv, m)
+			if err != nil {
+				u.errs = append(u.errs, fmt.Sprintf("%s: loop %d modifies %s: %v (contract.attach)", m.Where, l.Ordinal, m.Src, err))
+				okAll = false
+				continue
+			}
+			refs = append(refs, r)
+		}
+		if okAll {
+			w.unknown = false
+			w.refs = refs
+			fr.loopMods = append(fr.loopMods, loopMod{refs: refs, nextEntry: nextEntry, ord: l.Ordinal})
+			defer func() { fr.loopMods = fr.loopMods[:len(fr.loopMods)-1] }()
+		}
+	}
 	if w.allocs {
 		var f *Term
 		st.Next, f = newNext(nextEntry)
@@ -1060,6 +1100,9 @@ func (fr *Frame) loopEnv(l *Loop, phis []*ssa.Phi, phiVals map[*ssa.Phi]*Val, st
 			continue
 		}
 		if _, dup := byName[nm]; dup {
+			continue
+		}
+		if phiVals[p] == nil {
 			continue
 		}
 		byName[nm] = phiVals[p]
@@ -1249,8 +1292,7 @@ func (fr *Frame) loopWrites(l *Loop, env map[ssa.Value]*Val) *loopWriteInfo {
 		for _, in := range b.Instrs {
 			switch x := in.(type) {
 			case *ssa.Store:
-				t := x.Addr.Type().(*types.Pointer).Elem()
-				for _, k := range cellKinds(t) {
+				for _, k := range addrKinds(x.Addr) {
 					w.kinds[k] = true
 				}
 				root(x.Addr, map[ssa.Value]bool{})
@@ -1315,7 +1357,7 @@ func (fr *Frame) callWrites(x *ssa.Call, l *Loop, w *loopWriteInfo, root func(ss
 			return // closures are required to be pure (checked when verified)
 		}
 		w.unknown = true
-		for k := range allKinds {
+		for _, k := range allKindsNow() {
 			w.kinds[k] = true
 		}
 		return
@@ -1362,12 +1404,31 @@ func (fr *Frame) callWrites(x *ssa.Call, l *Loop, w *loopWriteInfo, root func(ss
 		return
 	}
 	w.unknown = true
-	for k := range allKinds {
+	for _, k := range allKindsNow() {
 		w.kinds[k] = true
 	}
 }
 
-var allKinds = map[string]bool{"bool": true, "int": true, "bv8": true, "bv16": true, "bv32": true, "bv64": true, "fp": true}
+// addrKinds: heap kinds written by a store through addr.
+func addrKinds(addr ssa.Value) []string {
+	switch a := addr.(type) {
+	case *ssa.FieldAddr:
+		nt := a.X.Type().Underlying().(*types.Pointer).Elem()
+		if st, ok := nt.Underlying().(*types.Struct); ok {
+			return fieldKinds(nt, st, a.Field)
+		}
+	case *ssa.IndexAddr:
+		if fa, ok := a.X.(*ssa.FieldAddr); ok {
+			ks := addrKinds(fa)
+			if pt, ok := fa.Type().Underlying().(*types.Pointer); ok {
+				if ar, ok := pt.Elem().Underlying().(*types.Array); ok {
+					return ks[:sizeOf(ar.Elem())]
+				}
+			}
+		}
+	}
+	return cellKinds(addr.Type().Underlying().(*types.Pointer).Elem())
+}
 
 func (fr *Frame) scanCalleeWrites(callee *ssa.Function, args []ssa.Value, l *Loop, w *loopWriteInfo, root func(ssa.Value, map[ssa.Value]bool), depth int) {
 	if depth > 4 {
@@ -1412,8 +1473,7 @@ func (fr *Frame) scanCalleeWrites(callee *ssa.Function, args []ssa.Value, l *Loo
 		for _, in := range b.Instrs {
 			switch x := in.(type) {
 			case *ssa.Store:
-				t := x.Addr.Type().(*types.Pointer).Elem()
-				for _, k := range cellKinds(t) {
+				for _, k := range addrKinds(x.Addr) {
 					w.kinds[k] = true
 				}
 				croot(x.Addr, map[ssa.Value]bool{})
@@ -1451,30 +1511,93 @@ func (fr *Frame) scanCalleeWrites(callee *ssa.Function, args []ssa.Value, l *Loo
 	}
 }
 
-// modifiesRootParam: the parameter a modifies-target is rooted at, and the heap kinds it covers.
+// modifiesRootParam: the parameter a modifies-target is rooted at, and the heap kinds it covers
+// (computed from the static types along the access path).
 func modifiesRootParam(fn *ssa.Function, m Clause) (string, []string) {
 	var rootName string
-	var walk func(e Expr)
-	walk = func(e Expr) {
+	var typeOf func(e Expr) types.Type
+	typeOf = func(e Expr) types.Type {
 		switch x := e.(type) {
 		case *EIdent:
 			rootName = x.Name
+			for _, p := range fn.Params {
+				if p.Name() == x.Name {
+					return p.Type()
+				}
+			}
 		case *ESel:
-			walk(x.X)
+			if x.Name == "$all" || x.Name == "$obj" {
+				return typeOf(x.X)
+			}
+			t := typeOf(x.X)
+			if t == nil {
+				return nil
+			}
+			if p, ok := t.Underlying().(*types.Pointer); ok {
+				t = p.Elem()
+			}
+			if st, ok := t.Underlying().(*types.Struct); ok {
+				for i := 0; i < st.NumFields(); i++ {
+					if st.Field(i).Name() == x.Name {
+						return st.Field(i).Type()
+					}
+				}
+			}
 		case *EIndex:
-			walk(x.X)
-		case *ECall:
-			if len(x.Args) > 0 {
-				walk(x.Args[0])
+			t := typeOf(x.X)
+			if t == nil {
+				return nil
+			}
+			switch u := t.Underlying().(type) {
+			case *types.Slice:
+				return u.Elem()
+			case *types.Array:
+				return u.Elem()
 			}
 		}
+		return nil
 	}
-	walk(m.E)
-	var ks []string
-	for k := range allKinds {
-		ks = append(ks, k)
+	exact := func() []string {
+		s, ok := m.E.(*ESel)
+		if !ok {
+			return nil
+		}
+		bt := typeOf(s.X)
+		if bt == nil {
+			return nil
+		}
+		switch s.Name {
+		case "$all":
+			if sl, ok := bt.Underlying().(*types.Slice); ok {
+				return cellKinds(sl.Elem())
+			}
+			if p, ok := bt.Underlying().(*types.Pointer); ok {
+				return cellKinds(p.Elem())
+			}
+		case "$obj":
+			if p, ok := bt.Underlying().(*types.Pointer); ok {
+				return cellKinds(p.Elem())
+			}
+		default:
+			nt := bt
+			if p, ok := nt.Underlying().(*types.Pointer); ok {
+				nt = p.Elem()
+			}
+			if st, ok := nt.Underlying().(*types.Struct); ok {
+				for i := 0; i < st.NumFields(); i++ {
+					if st.Field(i).Name() == s.Name {
+						return fieldKinds(nt, st, i)
+					}
+				}
+			}
+		}
+		return nil
 	}
-	sort.Strings(ks)
+	ks := exact()
+	if ks == nil {
+		typeOf(m.E)
+		ks = allKindsNow()
+	}
 	return rootName, ks
 }
 
@@ -1726,4 +1849,77 @@ func (p *Program) globalSliceInit(g *ssa.Global, elem types.Type) ([]*Term, int6
 		}
 	}
 	return nil, 0, false
+}
+
+// scanFieldAddrs: a struct field gets its own heap component only if no
+// function in the loaded program lets the field's address escape (every
+// FieldAddr of it is used for an immediate load or store, possibly through a
+// constant-index IndexAddr for array fields).
+func (v *Verifier) scanFieldAddrs() {
+	directUse := func(val ssa.Value) bool {
+		for _, r := range *val.Referrers() {
+			switch u := r.(type) {
+			case *ssa.DebugRef:
+			case *ssa.UnOp:
+				if u.Op != token.MUL {
+					return false
+				}
+			case *ssa.Store:
+				if u.Addr != val {
+					return false
+				}
+			default:
+				return false
+			}
+		}
+		return true
+	}
+	for fn := range v.prog.names {
+		for _, b := range fn.Blocks {
+			for _, in := range b.Instrs {
+				fa, ok := in.(*ssa.FieldAddr)
+				if !ok {
+					continue
+				}
+				pt, ok := fa.X.Type().Underlying().(*types.Pointer)
+				if !ok {
+					continue
+				}
+				tn := structName(pt.Elem())
+				st, ok := pt.Elem().Underlying().(*types.Struct)
+				if !ok || tn == "" {
+					continue
+				}
+				key := tn + "." + st.Field(fa.Field).Name()
+				if fieldAddrEscapes[key] {
+					continue
+				}
+				okUse := true
+				for _, r := range *fa.Referrers() {
+					switch u := r.(type) {
+					case *ssa.DebugRef:
+					case *ssa.UnOp:
+						if u.Op != token.MUL {
+							okUse = false
+						}
+					case *ssa.Store:
+						if u.Addr != ssa.Value(fa) {
+							okUse = false
+						}
+					case *ssa.IndexAddr:
+						if !directUse(u) {
+							okUse = false
+						}
+					default:
+						okUse = false
+					}
+				}
+				if !okUse {
+					fieldAddrEscapes[key] = true
+				}
+			}
+		}
+	}
+	fieldTagging = true
+	layoutCache = map[types.Type][]string{}
 }
